@@ -73,6 +73,28 @@ type Emit struct {
 	ID      string          `json:"id,omitempty"`     // bridge / marshal: id text
 	Code    int             `json:"code,omitempty"`
 	Message string          `json:"message,omitempty"`
+	// Logger: the server has an RPCLogger that takes the parameters and the
+	// result as json.RawMessage (documented to be copies) and overwrites them.
+	Logger bool `json:"logger,omitempty"`
+}
+
+// scribbler is an RPCLogger that "redacts" its own copies in place.
+type scribbler struct{}
+
+func (scribbler) LogRequest(ctx context.Context, req *jrpc2.Request) {
+	var raw json.RawMessage
+	req.UnmarshalParams(&raw)
+	for i := range raw {
+		raw[i] = 'X'
+	}
+}
+
+func (scribbler) LogResponse(ctx context.Context, rsp *jrpc2.Response) {
+	var raw json.RawMessage
+	rsp.UnmarshalResult(&raw)
+	for i := range raw {
+		raw[i] = 'X'
+	}
 }
 
 func toValue(e Emit) any {
@@ -262,7 +284,11 @@ func runEmit(_ *testing.T, e Emit) engine.Verdict {
 			}
 			return toValue(e), nil
 		}
-		srv := jrpc2.NewServer(handler.Map{"m": h}, &jrpc2.ServerOptions{AllowPush: true}).Start(tp)
+		sopts := &jrpc2.ServerOptions{AllowPush: true}
+		if e.Logger {
+			sopts.RPCLog = scribbler{}
+		}
+		srv := jrpc2.NewServer(handler.Map{"m": h}, sopts).Start(tp)
 		switch e.Via {
 		case "response", "errresponse":
 			wantID = e.ID
@@ -500,6 +526,7 @@ func genEmit(t *rapid.T) Emit {
 		}
 		e.Message = genText(t, "msg", 1)
 	}
+	e.Logger = (e.Via == "response" || e.Via == "errresponse") && rapid.IntRange(0, 2).Draw(t, "logger") == 0
 	return e
 }
 
